@@ -51,14 +51,15 @@ RULE = (
 ASSUMPTIONS = [
     "a bare tuple of periods inside square brackets cannot be told from (dates, variants) by Python; tuples of periods are "
     "passed as x[(p, q, ...), variants] (variants possibly None), lists of periods as x[[p, q, ...]]",
-    "open-ended spans (None >> p, p >> None) are not applied to a series without a start (no context to resolve against); "
+    "open-ended spans (None >> p, p >> None, Span(None, None)) are not applied to a series without a start (no context to "
+    "resolve against; None >> p and p >> None also not to a series with a start but no rows); "
     "open ends, `...`, the default span of fill_missing, keyword shifts, statistics across time and overlay/underlay 'span of "
     "the series' are resolved against the reported start/end of the live series (which may carry all-missing edge rows "
     "after clip or element-wise functions)",
     "overlay/underlay: periods inside the reported span of the superimposed series but outside its first..last "
     "observation may either keep the underlying value (docstring: 'from the first available observation to the last') or "
     "become missing (reported span); both accepted",
-    "the no-all-missing-edge rule is asserted after writes (x[..]=.., set_data), trim() and binary arithmetic operators "
+    "the no-all-missing-edge rule is asserted after writes (constructors from values, x[..]=.., set_data), trim() and binary arithmetic operators "
     "(series-series, series-scalar, scalar-series) only; unary operators (-x, +x, abs, round), element-wise functions, clip, "
     "shift and the other functions only have to report a span covering the values",
     "binary operators whose numpy value is non-missing although an operand is missing (x**0, 1**x) may return that value "
@@ -81,6 +82,9 @@ ASSUMPTIONS = [
     "documented table); windows are negative integers",
     "series-series operations are generated only for equal numbers of variants or when one side has a single variant "
     "(broadcast); writes of a series or 2-D array use as many columns as addressed variants, or one",
+    "hstack / & / | take live series as arguments (no scalars); a write addressed to zero periods (open-ended span that "
+    "resolves to nothing) uses a scalar value; reference arithmetic evaluates each cell with numpy exactly as a 1x1 array "
+    "against a plain scalar would be (numpy's scalar-exponent shortcuts differ from pow at -inf)",
     "redate is not applied to a series without a start; redate(new) means 'the reported start becomes new', "
     "redate(new, old) means 'the observation dated old becomes dated new'",
     "values computed by the library (arithmetic, functions) are compared with rtol 1e-9 and atol 1e-11 x magnitude of the "
@@ -1452,6 +1456,24 @@ def _check(case):
     strict = {"write_outside", "binop_diff_spans", "functional_form"} <= it.flags
     labels.append(f"rule_parts_{len({'write_outside', 'binop_diff_spans', 'functional_form'} & it.flags)}")
     return {"labels": labels, "nontrivial": strict}
+
+
+def _matcher(buckets, fragment):
+    def match(subcheck, case, bucket, message):
+        return bucket in buckets and fragment in message
+    return match
+
+
+# Matchers for known_findings.json entries (used only while the corresponding entry is open)
+FINDING_MATCHERS = {
+    "overlay_underlay_argument_broadcast": _matcher(("overlay:modifies_argument", "underlay:modifies_argument"), "(argument) changed"),
+    "redate_nameerror": _matcher(("redate:raises:NameError",), "old_data"),
+    "binop_two_empty_series": _matcher(("binop:series:raises:TypeError", "cmp:series:raises:TypeError", "change:raises:TypeError"),
+                                       "'NoneType' and 'NoneType'"),
+    "clip_empty_series": _matcher(("clip:raises:IrisPieError",), "different time frequencies"),
+    "moving_window_empty_series": _matcher(("moving:raises:ValueError",), "window shape cannot be larger"),
+    "statistics_empty_series": _matcher(("stat:axis1:raises:ValueError",), "cannot reshape array of size 0"),
+}
 
 
 SUBCHECKS = [
